@@ -160,6 +160,8 @@ pub fn nest_source(kind: usize, depth: usize, rng: &Rng, d: &Delims) -> String {
                 "{% set_global a = [] %}", "{{ 1 if true else 2 if false else 3 }}", "{{ [] }}{{ {} }}", "{{ [...[], ...[]] }}", "{{ [...1] }}", "{{ [1, ...\"ab\"] }}", "{{ [...none] }}", "{{ [...2.5] }}",
                 "{{ [...{\"a\": 1}] }}", "{{ {...1} }}", "{{ {...[1]} }}", "{{ {...{}, \"a\": 1, ...{\"a\": 2} } }}", "{{ [...[1, 2], x] }}", "{{ [[y for y in x] for x in [[1]]] }}", "{{ [x for x in [] if x] }}",
                 "{# only a comment #}", "{% raw %}{% endraw %}", "{% raw %}{{ x }}{% endraw %}", "{{ true and false or not true }}", "{{ 1 < 2 < 3 }}", "{{ 1 == 1 == true }}", "{{ not not not x }}", "{{ -(-(-1)) }}",
+                "{# multi\nline\ncomment #}", "{% raw %}\n{{ x }}\n{% endraw %}", "{{ \"a\nb\" }}", "{{ 'a\r\nb' }}", "{{\nx\n}}", "{%\nif x\n%}a{%\nendif\n%}", "a\n\n{{ x |\n upper }}\n", "{{ `a\n\nb` ~\n1 }}",
+                "\n\n\n{# c\r\n#}\r\n{{ \"\u{e9}\n\u{1F389}\" }}",
                 "{% if true %}{% if false %}{% endif %}{% endif %}", "{% for a in b %}{% if a %}{% break %}{% endif %}{% endfor %}", "{% for a in b %}{% continue %}{% endfor %}", "{{ a.b?.c }}", "{{ a?[0] }}",
                 "{{ \"\" ~ \"\" }}", "{{ [][0] }}", "{{ {}[\"a\"] }}", "{{ \"\"[0:0] }}", "{{ x | default(value=[]) }}", "{% component E() %}{% endcomponent E %}{{ <E/> }}", "{% component F(a=[]) %}{{ a }}{% endcomponent F %}{{ <F a={[...[1]]}/> }}",
             ];
@@ -354,6 +356,7 @@ fn variants_of(sc: &DiskScenario) -> Vec<(&'static str, Vec<u8>)> {
                     "crlf" => "crlf",
                     "long_line" => "long_line",
                     "layout" => "layout",
+                    "tiny" => "tiny",
                     _ => "original",
                 };
                 out.push((kind, crate::sval::unhex(h)));
@@ -419,6 +422,15 @@ fn variants_of(sc: &DiskScenario) -> Vec<(&'static str, Vec<u8>)> {
                         out.push(("layout", l.as_bytes()[..n].to_vec()));
                     }
                 }
+            }
+            // very short and oddly terminated files
+            for tiny in [&[0xEFu8][..], &[0xEF, 0xBB, 0xBF, b'a'], b"\r", b"\r\n", b"\n", b"\n\n", b"a\r", &[0x1a], &[0xEF, 0xBB, 0xBF, b'\r', b'\n'], &[0xFE, 0xFF], &[0xFF, 0xFE, b'a', 0]] {
+                out.push(("tiny", tiny.to_vec()));
+            }
+            for tail in [&[0x1au8][..], b"\r", b"\n", b"\r\n\r\n", &[0xEF, 0xBB, 0xBF], &[0xC3], &[0xF0, 0x9F]] {
+                let mut b = src.to_vec();
+                b.extend_from_slice(tail);
+                out.push(("tiny", b));
             }
             let mut nuls = src.to_vec();
             nuls.extend_from_slice(&[0, 0, 0, 0]);
@@ -523,7 +535,7 @@ pub fn execute(sc: &DiskScenario, stats: &mut Stats) -> Outcome {
         if as_str.is_none() {
             stats.inc("probe_variant_not_utf8");
         }
-        let via_file = as_str.is_none() || vi % sc.via_file_every.max(1) == 0 || matches!(kind, "bom" | "crlf" | "long_line") || (kind == "layout" && vi % 2 == 0);
+        let via_file = as_str.is_none() || vi % sc.via_file_every.max(1) == 0 || matches!(kind, "bom" | "crlf" | "long_line" | "tiny") || (kind == "layout" && vi % 2 == 0);
         engine::set_step_limit(engine::steps() + budget);
         let res: Result<Result<(), tera::Error>, String> = if via_file {
             std::fs::write(&path, &bytes).expect("tmpfs write");
